@@ -140,3 +140,25 @@ contract(F + "Alignment.disorder", params={"self": ALIGN()}, returns=RealT(), is
          ensures=[cl("result == some(old(self._disorder)) and self._disorder == old(self._disorder)", "C03 C05", name="the-cached-value")],
          notes="the uncached branch (sum of unitary disorders over the mean number of units) is exercised by the bounded stand-in of C03",
          serves={"C03", "C05", "C10"})
+
+# ------------------------------------------------------------------------------------------ take_until_limit  (C10: progress of the fast alignment)
+contract(F + "UnitaryAlignment.bounds", params={"self": UAT()}, returns=TupleOf(RealT(), RealT()), is_property=True, trusted=True,
+         notes="abstract: a pair of floats (np.inf / -np.inf arithmetic is outside the encoding); no obligation relies on its value - "
+               "take_until_limit's progress and subset clauses hold whatever the bounds are",
+         serves={"C10"})
+
+contract(F + "Alignment.take_until_limit",
+         params={"self": ALIGN(), "x_limit": RealT()}, returns=UAT(),
+         lets={"nU": "len(self.unitary_alignments)"},
+         ghost_vars={"PI": ("AInt", None)},
+         calls={"bounds": F + "UnitaryAlignment.bounds"},
+         yields=[cl("0 <= PI[nyield] and PI[nyield] < nU and yielded == self.unitary_alignments[PI[nyield]]", "C10",
+                    name="a-unitary-alignment-of-this-alignment"),
+                 cl("forall(k2, 0, nyield, PI[k2] != PI[nyield])", "C10", name="each-at-most-once")],
+         count_facts=[cl("nyield <= nU", "C10", name="at-most-all"),
+                      cl("implies(nU >= 1, nyield >= 1)", "C10", name="progress-the-leftmost-is-always-taken")],
+         loops={"L0": dict(match="for i, unitary_alignment in enumerate(sorted(...", iter_name="SRT", iter_ghost={"PI": "last_perm()"},
+                           inv=["nyield == i", "len(SRT) == nU",
+                                "forall(k, 0, nU, 0 <= PI[k] and PI[k] < nU and SRT[k] == self.unitary_alignments[PI[k]])",
+                                "forall(k, 0, nU, forall(k2, 0, k, PI[k2] != PI[k]))"])},
+         serves={"C10"})
